@@ -171,8 +171,13 @@ impl Finds {
                     if !done_words.insert(s(&cs)) {
                         continue;
                     }
+                    // the mistyped letter is usually a plain letter of the alphabet, sometimes an accented letter of the
+                    // language (one that its tables map to a single letter or leave alone): such a query is not plain ASCII
+                    // even when the title is
+                    let accented: Vec<char> = oracle::accents(lang).iter().map(|a| a.composed).filter(|c| c.is_lowercase()).chain(if lang == "xr" { vec!['é'] } else { vec![] }).collect();
                     for pos in 0..=cs.len() {
                         for kind in 0..4 {
+                            let alpha: Vec<char> = if !accented.is_empty() && kind < 2 && cx.rng.chance(1, 8) { accented.clone() } else { alpha.clone() };
                             let mut e = cs.clone();
                             let kind_name = match kind {
                                 0 => {
@@ -208,8 +213,18 @@ impl Finds {
                             };
                             let q = s(&e);
                             if !oracle::stable(lobj, &q, &[&e[..]]) {
-                                cx.count("skipped_unstable");
-                                continue;
+                                // an accented typo letter is folded by the language: still one word, spelled as the harness's
+                                // own tables normalise it, and at most one edit away from the title word
+                                let want = cv(&oracle::norm_word(lang, &q));
+                                let word = cv(&oracle::norm_word(lang, &s(&cs)));
+                                if e.iter().any(|c| accented.contains(c)) && oracle::stable(lobj, &q, &[&want[..]]) && oracle::lev(&want, &word) <= 1 {
+                                    cx.count("typo letter that is an accented letter of the language");
+                                } else {
+                                    cx.count("skipped_unstable");
+                                    continue;
+                                }
+                            } else if e.iter().any(|c| accented.contains(c)) && !cs.iter().any(|c| accented.contains(c)) {
+                                cx.count("typo letter that is an accented letter of the language");
                             }
                             cx.ctx(format!("C04 lang={} title={:?} q={:?}", lang, rec.1, q));
                             lead_in(cx, st, &q);
@@ -479,7 +494,7 @@ impl Prop for Finds {
     fn floors(&self) -> Vec<(&'static str, u64, u64)> {
         match self.0 {
             Which::Prefix => vec![("prefix len 1", 500, 5000), ("prefix len 2", 500, 5000), ("prefix len >3", 2000, 20000), ("word with stem < len", 200, 2000), ("function word", 20, 200), ("word > 20 letters", 20, 200), ("judged queries preceded by the searches of a person typing them", 5000, 50000), ("titles with more than 20 words", 100, 1000)],
-            Which::Typo => vec![("substitution at first", 50, 500), ("insertion at first", 50, 500), ("deletion at first", 50, 500), ("transposition at first", 50, 500), ("transposition at last", 50, 500), ("len 5", 200, 2000), ("len >20", 100, 1000), ("judged queries preceded by the searches of a person typing them", 5000, 50000), ("titles with more than 20 words", 30, 300), ("exhaustive-letter edits", 30000, 250000), ("exhaustive-letter words that are function words", 150, 150)],
+            Which::Typo => vec![("substitution at first", 50, 500), ("insertion at first", 50, 500), ("deletion at first", 50, 500), ("transposition at first", 50, 500), ("transposition at last", 50, 500), ("len 5", 200, 2000), ("len >20", 100, 1000), ("typo letter that is an accented letter of the language", 3000, 30000), ("judged queries preceded by the searches of a person typing them", 5000, 50000), ("titles with more than 20 words", 30, 300), ("exhaustive-letter edits", 30000, 250000), ("exhaustive-letter words that are function words", 150, 150)],
             Which::Whole => vec![("whole title", 1000, 10000), ("first last", 300, 3000), ("judged queries preceded by the searches of a person typing them", 5000, 50000), ("last first", 300, 3000), ("title with function word", 50, 500), ("titles with more than 20 words", 200, 2000), ("catalogues searched while small, then grown and given limit = N", 6, 60)],
             Which::SplitJoin => vec![("split", 2000, 20000), ("split after first letter", 200, 2000), ("judged queries preceded by the searches of a person typing them", 5000, 50000), ("join", 100, 1000), ("join with 1-letter first word", 3, 30), ("titles with more than 20 words", 100, 1000), ("split followed by a separator", 20000, 200000), ("split next to symbols inside the word", 300, 3000)],
         }
